@@ -1583,6 +1583,15 @@ def extract_closure(src, spec, unit_rules):
             if len(c) <= rg.get("n", 0):
                 raise LostAnchor(f"if `{rg['cond_contains']}` of {spec['path']}")
             body, is_block = list(c[rg.get("n", 0)]["then"]), True
+        elif rg["kind"] == "if_stmt":
+            # the WHOLE `if` statement (condition included) whose condition mentions a text
+            if rg.get("cond_matches"):
+                c = [n for n in fn["nodes"] if n["kind"] == "if" and re.fullmatch(rg["cond_matches"], re.sub(r"\s+", "", src.text(*n["cond"])))]
+            else:
+                c = [n for n in fn["nodes"] if n["kind"] == "if" and rg["cond_contains"].replace(" ", "") in src.text(*n["cond"]).replace(" ", "").replace("\n", "")]
+            if len(c) <= rg.get("n", 0):
+                raise LostAnchor(f"if `{rg.get('cond_matches') or rg.get('cond_contains')}` of {spec['path']}")
+            body, is_block = list(c[rg.get("n", 0)]["range"]), False
         elif rg["kind"] == "match":
             # the `match` expression whose scrutinee mentions a text: its value is the function's result
             c = [n for n in fn["nodes"] if n["kind"] == "match" and rg["scrutinee_contains"].replace(" ", "") in n["scrutinee_text"].replace(" ", "")]
@@ -1641,12 +1650,16 @@ def extract_closure(src, spec, unit_rules):
     is_block = cl["body_is_block"]
     item = dict(fn)
     item["scope"] = tuple(body)
+    ed = Edits()
     for n in nodes_of(item):
         if n["kind"] in ("continue", "break"):
             ok = any(an["kind"] == "loop" and inside(an, body) for an in ancestors(item, n))
             if not ok:
+                if spec.get("control") == "flow" and spec.get("loop_exits"):
+                    # `break` / `continue` of the ENCLOSING loop, seen from inside the region: the region's result says so
+                    ed.replace(n["range"][0], n["range"][1], "return VxFlow::" + ("Break" if n["kind"] == "break" else "Continue"), "R34")
+                    continue
                 raise Unsupported("R31: closure body transfers control of an outer loop")
-    ed = Edits()
     for (s0, e0) in src.attrs:
         if body[0] <= s0 and e0 <= body[1]:
             ed.replace(s0, e0, "", "R0")
